@@ -111,6 +111,15 @@ def make_specs(seed, quick, volume=1):
                 specs.append({"seed": seed, "salt": salt, "sys": sysname, "kind": kind, "para": para, "data": "noisy_int",
                               "shots": shots, "m": 2 if kind == "qmpt" else None, "eps_proj": None, "testers": "ineff",
                               "ests": [("ple", "eq_ineq"), ("ple", "ineq_eq"), ("lme", "fse", "fista", "eq_ineq")], "noseq": True})
+    # (e) a tight user threshold eps_proj_physical = 1e-22 must reach the template object and the estimates (bound ~ 4e-11)
+    for rep in range((1 if quick else 3) * volume):
+        for kind in L.KINDS:
+            for para in (True, False):
+                salt += 1
+                specs.append({"seed": seed, "salt": salt, "sys": "1qubit", "kind": kind, "para": para, "data": "few",
+                              "shots": int(rnd.choice([2, 5, 20])), "m": 3 if kind == "povmt" else (2 if kind == "qmpt" else None),
+                              "eps_proj": 1e-22, "noseq": True,
+                              "ests": [("ple", "eq_ineq"), ("ple", "ineq_eq"), ("lme", "fse", "pgdb", "eq_ineq")]})
     # (c) the installed projections leave physical points where they are
     for rep in range((2 if quick else 6) * volume):
         for sysname in (["1qubit"] if quick else ["1qubit", "1qutrit"]):
@@ -226,6 +235,14 @@ def eval_spec(spec):
 
     g, qt, c, m, true, empi = setup(spec)
     tol_eq, tol_ineq = tolerances(spec, m)
+    # the threshold handed to the tomography class is the one its template / setting-info objects carry
+    want_eps = spec["eps_proj"] or 1e-14
+    for label, o in (("template", qt._template_qoperation), ("setting-info", qt.generate_empty_estimation_obj_with_setting_info())):
+        if not (abs(o.eps_proj_physical - want_eps) <= 1e-12 * want_eps):
+            out["viol"].append({"signature": f"C10/template/{spec['kind']}/eps-proj-physical-not-forwarded",
+                                "what": f"{type(qt).__name__}(eps_proj_physical={spec['eps_proj']}): {label} object carries "
+                                        f"{o.eps_proj_physical!r}", "replay": {"kind": "cell", "spec": dict(spec, ests=[], seq_ests=[])}})
+            break
     tv = true.to_stacked_vector()
     kind, data = spec["kind"], spec["data"]
     cnt(f"cell {spec['sys']} {kind} para={spec['para']} data={data}")
